@@ -12,7 +12,15 @@ def main():
         c = reg["contracts"][key]
         if pat not in key or c.abstract or c.trusted:
             continue
-        r = verify_function(key, repo, reg, timeout_s=20)
+        from .verify import facets_of
+        for fct in [None] + facets_of(key, reg):
+            _one(key, repo, reg, fct, verbose)
+
+
+def _one(key, repo, reg, fct, verbose):
+    if True:
+        r = verify_function(key, repo, reg, timeout_s=20, facet=fct)
+        key = key if fct is None else f"{key}@{fct}"
         nproved = sum(1 for g in r.groups.values() if g["verdict"] == "proved")
         print(f"{key}: {r.status} {r.reason} groups={len(r.groups)} proved={nproved} outcomes={r.outcomes}/{r.feasible_outcomes} t={r.time:.1f}s")
         for n, g in r.groups.items():
